@@ -68,7 +68,18 @@ class FsmSim:
         tsubmit.already_applied = lambda changeset, repo: False
         tsubmit.mail_out = lambda msg: None
         self.automatic_ok = True
-        tsubmit.automatic = lambda **k: tsubmit.State.SUCCESS if self.automatic_ok else tsubmit.State.FAILED
+        self.spawned = []
+
+        def automatic(**k):
+            # the git steps succeed or fail as the workload says; on success the compliance check is
+            # spawned through the caller's VerifyHandler exactly as tools.submit.auto_merge_compliant does
+            if not self.automatic_ok:
+                return tsubmit.State.FAILED
+            k['spawn'](['python3', '-m', 'dawgie.tools.compliant'])
+            return tsubmit.State.SUCCESS
+
+        tsubmit.automatic = automatic
+        self.rx.spawnProcess = lambda handler, *a, **k: self.spawned.append(handler)
         self.rev = 0
         ctx._rev = lambda: f'rev{self.rev}'  # pylint: disable=protected-access
 
@@ -165,7 +176,90 @@ class FsmSim:
         proc = mod.Process(f'changeset{self.rev}', lambda: cleared.append(1), req, priority)
         proc.step_0()
         self.drain_reactor()
+        # the spawned compliance process ends (successfully): VerifyHandler.processEnded
+        from twisted.internet.error import ProcessDone  # pylint: disable=import-outside-toplevel
+        from twisted.python.failure import Failure  # pylint: disable=import-outside-toplevel
+
+        while self.spawned:
+            self.spawned.pop(0).processEnded(Failure(ProcessDone(0)))
+            self.drain_reactor()
         return req
 
     def dispatch(self):
         self.farm.dispatch()
+
+
+# ---------------------------------------------------------------------------
+# cooperative pollers (C12): the three submit waiters are loops of the form
+#     while <condition>: time.sleep(0.2)
+# run by deferToThread.  Here time.sleep inside dawgie.pl.state raises Pause, so
+# one call of the poller function is exactly one evaluation round of its loop: it
+# either returns (the thread would finish) or pauses (the thread would sleep and
+# evaluate again).  The workload decides when each poller gets a tick and when the
+# result of a finished poller is delivered to the reactor side.
+class Pause(Exception):
+    pass
+
+
+class Poller:
+    # pylint: disable=too-few-public-methods
+    def __init__(self, func, args, kwds):
+        import twisted.internet.defer  # pylint: disable=import-outside-toplevel
+
+        self.func, self.args, self.kwds = func, args, kwds
+        self.name = getattr(func, '__name__', repr(func))
+        self.deferred = twisted.internet.defer.Deferred()
+        self.finished = False
+        self.delivered = False
+        self.ticks = 0
+        self.result = None
+
+    def tick(self):
+        '''one evaluation round; True when the poller function returned'''
+        if self.finished:
+            return True
+        self.ticks += 1
+        try:
+            self.result = self.func(*self.args, **self.kwds)
+            self.finished = True
+        except Pause:
+            pass
+        except BaseException:  # pylint: disable=broad-exception-caught
+            from twisted.python import failure  # pylint: disable=import-outside-toplevel
+
+            self.result = failure.Failure()
+            self.finished = True
+        return self.finished
+
+    def deliver(self):
+        if self.finished and not self.delivered:
+            self.delivered = True
+            self.deferred.callback(self.result)
+
+
+POLLERS = ('is_crew_done', 'is_doing_done', 'is_todo_done')
+
+
+def install_pollers(sim):
+    '''route the waiter pollers to Poller objects; everything else stays parked'''
+    import types  # pylint: disable=import-outside-toplevel
+    import twisted.internet.threads  # pylint: disable=import-outside-toplevel
+
+    rx = sim.rx
+    sim.pollers = []
+    orig = rx.defer_to_thread
+
+    def defer_to_thread(func, *args, **kwds):
+        if getattr(func, '__name__', '') in POLLERS:
+            p = Poller(func, args, kwds)
+            sim.pollers.append(p)
+            return p.deferred
+        return orig(func, *args, **kwds)
+
+    twisted.internet.threads.deferToThread = defer_to_thread
+
+    def sleep(_s):
+        raise Pause()
+
+    sim.state_mod.time = types.SimpleNamespace(sleep=sleep)
+    return defer_to_thread
